@@ -300,7 +300,9 @@ impl LogState {
                                     if let Some((_, loglock, _)) = info.as_mut() {
                                         loglock.unlock()?;
                                     }
-                                    let new_t = mydir.join(RedoPath::from_str(g.text())?);
+                                    // (normalised, like the names in `already`: the same target can
+                                    // be named "../x" here and "x" elsewhere)
+                                    let new_t = RedoPath::from_str(&fixname)?.to_redo_path_buf();
                                     let got = self.catlog(ps, matches, show_status, &new_t)?;
                                     interrupted += got;
                                     lines_written += got;
@@ -327,7 +329,9 @@ impl LogState {
                                 if let Some((_, loglock, _)) = info.as_mut() {
                                     loglock.unlock()?;
                                 }
-                                let new_t = mydir.join(RedoPath::from_str(g.text())?);
+                                // (normalised, like the names in `already`: the same target can
+                                // be named "../x" here and "x" elsewhere)
+                                let new_t = RedoPath::from_str(&fixname)?.to_redo_path_buf();
                                 let got = self.catlog(ps, matches, show_status, &new_t)?;
                                 interrupted += got;
                                 lines_written += got;
